@@ -81,6 +81,32 @@ def run_frames(rep, cases):
             rep.case(case, nontrivial=any([S["coerce"], S["addMissing"], S["strict"] == "filter", S["dropInvalid"]]
                                           + [s["coerce"] or s["default"] is not None for s in S["columns"]]))
             judge(rep, case, "DataFrameSchema", df, before, outcome, out, pd.DataFrame)
+            # the same call under each validation depth: parsing happens at every depth, always on a copy
+            from pandera.config import ValidationDepth, config_context
+            for depth in ("SCHEMA_ONLY", "DATA_ONLY"):
+                df = A.frame_of(D)
+                with config_context(validation_depth=getattr(ValidationDepth, depth)):
+                    outcome, out = call(schema, df, lazy=lazy)
+                judge(rep, dict(case, entry=f"DataFrameSchema@{depth}"), f"DataFrameSchema@{depth}", df, before, outcome, out,
+                      pd.DataFrame)
+            # an object that came out of an earlier validation with this very schema object and was changed by the
+            # caller since: validating it again leaves it alone as well
+            df = A.frame_of(D)
+            o1, first = call(schema, df, lazy=lazy)
+            if o1 == "ok" and isinstance(first, pd.DataFrame) and len(first.columns):
+                k0 = first.columns[0]
+                try:
+                    first[k0] = first[k0].astype(object)
+                    if len(first):
+                        first.iloc[0, 0] = None
+                    first["added_by_caller"] = 1
+                except Exception:  # noqa: BLE001
+                    first = None
+                if first is not None:
+                    before2 = norm(snap(first))
+                    outcome, out = call(schema, first, lazy=lazy)
+                    judge(rep, dict(case, entry="DataFrameSchema-revalidation"), "DataFrameSchema-revalidation", first, before2,
+                          outcome, out, pd.DataFrame)
         # standalone components on the same data
         import pandera as pa
         for spec in S["columns"]:
